@@ -31,6 +31,14 @@ CHECKS["C20"]=dict(level="model_checking", ref="§C20",
    technique="exhaustive enumeration of all partitions of the output into play() buffer lengths, recording backend plus bit-exact differential on the real chip, writer-based decode check",
    text="For frames 0..3, samples-per-frame {1,2,3,5}, mono and stereo, every composition of the output into play() buffer lengths (incl. length 1, odd stereo lengths, past-the-end calls) is executed against a recording AY backend (frame k written exactly at sample k*spf, R13=FF skipped, totals) and 2^11 cut subsets on the real AymPrecise bit-exactly; Vtx::load is checked on files produced by an independent writer (literal-only LH5 validated through delharc) and on the four shipped files.",
    note="Not judged: player frequency 0, sample rate below player frequency. Largest stereo configuration uses capacity compositions x odd/even patterns (noted in evidence).")
+CHECKS["C02"]=dict(level="model_checking", ref="§C02",
+   technique="explicit-state BFS over instruction boundaries with a lazily chosen program and scripted INT/NMI levels, lock step with the reference interpreter",
+   text="From 24-72 roots (IFF1/IFF2 x IM x I x acknowledge byte) every history of 3 (quick) / 4 (thorough) instruction boundaries is explored, the environment choosing at each boundary the instruction token at PC (22 tokens: EI, DI, HALT, RET/RETI/RETN, IM x, LD A,I/R, prefix chains DD DD, DD FD, FD DD ED, DD EI, DD HALT, DDCB) and the INT/NMI levels, including levels that rise inside a prefix chain; acceptance, entry cycles, pushed address, vector, IFF1/IFF2, HALT release and R are compared with RefZ80 after every aligned step. Dedup on the complete implementation state, reference state and memory.",
+   note="RefZ80 validated as in C01 (z80bltst exercises IM 2 interrupts inside block instructions). Not judged: NMI directly after EI/DI, order of cycles inside interrupt entry.")
+CHECKS["C03"]=dict(level="model_checking", ref="§C03",
+   technique="finite product enumeration per opcode encoding comparing call-granular bus-cycle lists with the reference interpreter's documented lists",
+   text="For every encoding and every tuple of the atoms that select a timing variant or an address (flags, B, BC, A==(HL), operands, all address registers, IR), two backgrounds with pairwise distinct register values so every delay address identifies its source, the ordered list of bus calls made by Z80::emulate (4-T fetch, 3-T read/write, single delay T-states with address, port cycles) must equal RefZ80's documented list; interrupt entry in IM 0/1/2 and NMI (running and halted) after every encoding: total 13/19/11 T and accesses.",
+   note="Documented lists are RefZ80's (FUSE/Zilog breakdowns), totals unit-tested against the Zilog manual (121 variants). Machine-level T totals are C04/C05.")
 NOT_YET = {
 }
 def main():
